@@ -98,6 +98,14 @@ def gen_reverse_needed(rng, tier):
 def gen(rng, tier):
     if rng.random() < 0.12:
         return gen_reverse_needed(rng, tier)
+    if rng.random() < 0.1:
+        # layer 'keep_working': ordinary simulated searches created with expand_verified=True (what
+        # expand_comb_class builds for its retry); every child of a workable rule has to be queued
+        R = S.gen_search(rng, tier, flavour=ID)
+        R["config"]["expand_verified"] = True
+        R["config"]["debug"] = False
+        R["layer"] = "keep_working"
+        return R
     R = S.gen_search(rng, tier, flavour=ID)
     R["ops"] = [["auto", {"perc": 1, "smallest": rng.random() < 0.2, "status_update": None, "budgets": [], "tail_budget": None}]]
     R["config"]["debug"] = False
@@ -197,6 +205,10 @@ def standalone_check(spec, ctx):
 
 
 def execute(R, ctx):
+    if R.get("layer") == "keep_working":
+        S.execute_search(R, ctx, focus="C19S")
+        ctx.probe("layer_keep_working")
+        return
     sim = S.Sim(R, ctx, "C19")
     start = sim.world_class
     got = {}
